@@ -178,6 +178,15 @@ theorem C02_fusePreds_keeps_requested (d d' : Opt.DagRec) (name : String) (ps : 
     ∃ q' ∈ d'.ops, q'.outputs.contains a = true :=
   Opt.fusePreds_keeps_requested d d' name ps a hnames ha h hp
 
+/-- (l) … and so does a whole run of the structural optimizer (`multiple_inputs_optimize_dag` over any visiting order,
+with any parameters, forced fusion included): every requested array that had a producer still has one. -/
+theorem C02_optimize_keeps_requested (order : List String) (d d' : Opt.DagRec) (ps : Opt.Params) (a : String)
+    (hnames : Opt.NamesUnique d) (ha : ps.arrayNames.contains a = true)
+    (h : Opt.optimize d order ps = some d')
+    (hp : ∃ q ∈ d.ops, q.outputs.contains a = true) :
+    ∃ q' ∈ d'.ops, q'.outputs.contains a = true :=
+  (Opt.optimize_keeps_requested order d d' ps a hnames ha h hp).1
+
 /-! Non-vacuity: a three-op chain `x → a → b` with `a` fused into `b` satisfies `StepOK`. -/
 
 def opA : Op Nat :=
@@ -234,5 +243,10 @@ example : Opt.Describes recA opA ∧ Opt.Describes recB opB := by
 example : Opt.removedSel (V := Nat) [(recA, "a", true)] opA = true := by decide
 example : (Opt.fusePreds recDag "op-b" { arrayNames := ["b"] }).map (fun d => d.ops.map (fun o => (o.name, o.outputs)))
     = some [("op-x", ["x"]), ("op-b", ["b"])] := by decide
+
+example : Opt.NamesUnique recDag := by
+  intro r₁ h₁ r₂ h₂ hn
+  simp [recDag] at h₁ h₂
+  rcases h₁ with rfl | rfl | rfl <;> rcases h₂ with rfl | rfl | rfl <;> first | rfl | (exfalso; revert hn; decide)
 
 end Cubed.C02
